@@ -16,6 +16,7 @@ condition the code does not check.
 -/
 import Arca.Proofs.InferSound
 import Arca.Proofs.InferComplete
+import Arca.Proofs.InferCompared
 
 namespace Arca.Props.C08Infer
 open Arca.Model.Infer Arca.Proofs.InferSound
@@ -96,6 +97,16 @@ theorem typable_homogeneous_value_is_accepted (v : Lit) (ht : typable v = true) 
 
 example : typable sample = true := by
   simp [sample, typable, typableItems, typableFields, litTid]
+
+/-- the correspondence check never skips the acceptance verdict of a literal the soundness theorem speaks about: a well-formed
+    homogeneous literal is `leafConsistent` with its inferred type (the driver's condition for comparing the real `Unserialize`
+    verdict with `accepts`), and more generally whatever the model accepts is compared -/
+theorem homogeneous_values_are_compared (v : Lit) (t : ITy) (hi : infer v = some t) (hw : wf v = true) (hh : homog v = true) :
+    leafConsistent t v = true :=
+  Arca.Proofs.InferCompared.homog_is_compared v t hi hw hh
+
+theorem accepted_values_are_compared (t : ITy) (v : Lit) (h : accepts t v = true) : leafConsistent t v = true :=
+  Arca.Proofs.InferCompared.lc_of_accepts t v h
 
 /-- the ranges attached to the Go integer kinds are non-empty (the whole table) -/
 theorem kind_ranges_ordered :
